@@ -153,7 +153,9 @@ class DM:
 
         # stash inputs and some computed values on self
         self.ifn = ifn
-        self.Ifn = fft.fft2(ifn)
+        # the influence function is centred on sample n//2; move that sample to
+        # [0,0] so that filtering with Ifn does not displace the actuator pokes
+        self.Ifn = fft.fft2(fft.ifftshift(ifn))
         self.Nout = Nout
         self.Nact = Nact
         self.sep = sep
